@@ -77,6 +77,19 @@ def ob_decrypt(L, idlen):
         check_all_panics(stats, paths)
         for ctx, (dom, ex, W, h, de, ct, idb, r) in live_paths(paths):
             if not result_ok(r):
+                if 98 <= L <= 97 + 255:
+                    # completeness: a well-formed ciphertext may be refused only for one of the reasons the scheme names
+                    hy = ctx.facts + ctx.pc
+                    ctt = [dom.term(b) for b in ct]; idt = [dom.term(b) for b in idb]
+                    P9_ = z3.BitVecVal(0xB640000002A3A6F1D603AB4FF58EC74521F2934B1A7AEEDBE56F9B27E351457D, 256)
+                    C1 = W.FROMB(z3.Concat(*ctt[1:65]))
+                    w = split_terms(W.GBYTES(W.PAIR(de, C1)), 384)
+                    mlen = L - 97
+                    K = kdf_spec(h, ctt[1:65] + w + idt, 255 + 32)
+                    mac_ok = z3.And([a == b for a, b in zip(ctt[65:97], hmac_spec(h, K[mlen:mlen + 32], ctt[97:]))])
+                    bad = z3.Or(ctt[0] != 4, z3.UGE(z3.Concat(*ctt[1:33]), P9_), z3.UGE(z3.Concat(*ctt[33:65]), P9_), z3.Not(W.ONCURVE(C1)),
+                                z3.Not(mac_ok), z3.And([b == 0 for b in K]))
+                    discharge(stats, hy, bad, "decrypt refuses a ciphertext of valid length only for: C1 not 04||x||y with x,y < p, C1 off the curve, MAC mismatch, all-zero KDF output")
                 continue
             hy = ctx.facts + ctx.pc
             if L < 98 or L - 97 > 255:
